@@ -52,19 +52,19 @@ static inline float vm_remquo_coref(float x, float y, long long *kout) {
   long long k = nondet_longlong();
   if (isnan(x) || isnan(y) || isinf(x) || y == 0) { *kout = 0; return (float)VERIF_NAN; }
   if (isinf(y)) { *kout = 0; return x; }
-  float ay = fabsf(y);
-  if ((ay == 360.0f || ay == 90.0f) && fabsf(x) < VM_TWO23F) {
+  float ay = verif_fabsf(y);
+  if ((ay == 360.0f || ay == 90.0f) && verif_fabsf(x) < VM_TWO23F) {
     /* in binary64 the product k*ay and the difference are exact for |x| < 2^23 */
     __CPROVER_assume(k > -(1LL << 20) && k < (1LL << 20));
     __CPROVER_assume((double)x - (double)k * (double)ay == (double)r);
-    __CPROVER_assume(fabsf(r) <= ay / 2);
-    __CPROVER_assume(fabsf(r) != ay / 2 || (k & 1) == 0);
+    __CPROVER_assume(verif_fabsf(r) <= ay / 2);
+    __CPROVER_assume(verif_fabsf(r) != ay / 2 || (k & 1) == 0);
     if (r == 0) r = copysignf(0.0f, x);
     *kout = y < 0 ? -k : k;
     return r;
   }
-  __CPROVER_assume(!isnan(r) && fabsf(r) <= ay / 2 && fabsf(r) <= fabsf(x));
-  __CPROVER_assume(fabsf(x) > ay / 2 || r == x);
+  __CPROVER_assume(!isnan(r) && verif_fabsf(r) <= ay / 2 && verif_fabsf(r) <= verif_fabsf(x));
+  __CPROVER_assume(verif_fabsf(x) > ay / 2 || r == x);
   if (r == 0) r = copysignf(0.0f, x);
   __CPROVER_assume(k > -(1LL << 62) && k < (1LL << 62));
   *kout = k;
@@ -165,9 +165,9 @@ static inline float vm_sinf(float x) {
   if (x == 0) return x;
   float r = __CPROVER_uninterpreted_vm_sinf(x);
   __CPROVER_assume(r >= -1 && r <= 1);
-  if (fabsf(x) <= 0.78539824f) {
+  if (verif_fabsf(x) <= 0.78539824f) {
     __CPROVER_assume(r != 0 && signbit(r) == signbit(x));
-    __CPROVER_assume(fabsf(r) <= fabsf(x) && fabsf(r) <= 0.70710689f);
+    __CPROVER_assume(verif_fabsf(r) <= verif_fabsf(x) && verif_fabsf(r) <= 0.70710689f);
   }
   return r;
 }
@@ -176,7 +176,7 @@ static inline float vm_cosf(float x) {
   if (x == 0) return 1.0f;
   float r = __CPROVER_uninterpreted_vm_cosf(x);
   __CPROVER_assume(r >= -1 && r <= 1);
-  if (fabsf(x) <= 0.78539824f)
+  if (verif_fabsf(x) <= 0.78539824f)
     __CPROVER_assume(r >= 0.70710666f);
   return r;
 }
@@ -207,10 +207,10 @@ static inline float vm_atan2f(float y, float x) {
     return copysignf(VM_PIF, y);
   }
   float r = __CPROVER_uninterpreted_vm_atan2f(y, x);
-  __CPROVER_assume(!isnan(r) && fabsf(r) <= VM_PIF && signbit(r) == signbit(y));
-  if (x == 0) __CPROVER_assume(fabsf(r) == VM_PIF / 2);
-  if (x >= 0 && fabsf(y) <= x && !isinf(y)) __CPROVER_assume(fabsf(r) <= 0.78539824f);
-  if (x >= 0 && fabsf(y) == x) __CPROVER_assume(fabsf(r) == VM_PIF / 4);
+  __CPROVER_assume(!isnan(r) && verif_fabsf(r) <= VM_PIF && signbit(r) == signbit(y));
+  if (x == 0) __CPROVER_assume(verif_fabsf(r) == VM_PIF / 2);
+  if (x >= 0 && verif_fabsf(y) <= x && !isinf(y)) __CPROVER_assume(verif_fabsf(r) <= 0.78539824f);
+  if (x >= 0 && verif_fabsf(y) == x) __CPROVER_assume(verif_fabsf(r) == VM_PIF / 4);
   if (x > 0 && isinf(x) && !isinf(y)) __CPROVER_assume(r == copysignf(0.0f, y));
   return r;
 }
